@@ -658,3 +658,471 @@ T('pkgA_twin_phase_signatures_starred_constant_pairs', ALL4,
   *(_SIG_EDITS + ((C, "def make_middleware_chain(", _SIG_HELPER % "'endpoint', 'endpoint_provides'"),)))
 B('pkgA_phase_signatures_starred_pairs_crossed', ['C01', 'C03'], {'C01': 'R01.d', 'C03': 'R03.d'},
   *(_SIG_EDITS + ((C, "def make_middleware_chain(", _SIG_HELPER % "'endpoint', 'provides'"),)))
+
+
+# =================================================================== fourth pass (refactoring round 3, seeded round d)
+# ------------------------------------------------------------------ sinter.build_chain_str: more depth-loop shapes
+# enumerate() over the functions, the nesting level kept in a counter local that is advanced at the end of each iteration
+_BCS_ENUM = ("    openings, closings = [], []\n"
+             "    next_level = level\n"
+             "    for i, func in enumerate(funcs):\n"
+             "        level_params = params[i]\n"
+             "%s"
+             "        outer_indent = _INDENT * next_level\n"
+             "        inner_indent = outer_indent + _INDENT\n"
+             "        openings.append('%%sdef %%s(%%s):\\n' %% (outer_indent, inner_name, %s))\n"
+             "        closings.append('%%s__traceback_hide__ = True\\n%%sreturn funcs[%%s](%%s)\\n'\n"
+             "                        %% (inner_indent, inner_indent, next_level, call_kwargs))\n"
+             "        next_level = next_level + 1\n"
+             "    return ''.join(openings + closings[::-1])\n")
+_ENUM_OK = ("        params_sofar.update(level_params)\n"
+            "        arg_names = sorted(set(get_fb(func).get_arg_names()))\n"
+            "        call_kwargs = ', '.join(['%s=%s' % (a, a) for a in arg_names if a in params_sofar])\n")
+_ENUM_LATE = ("        arg_names = sorted(set(get_fb(func).get_arg_names()))\n"
+              "        call_kwargs = ', '.join(['%s=%s' % (a, a) for a in arg_names if a in params_sofar])\n"
+              "        params_sofar.update(level_params)\n")
+_ENUM_POSITIONAL = ("        params_sofar.update(level_params)\n"
+                    "        arg_names = sorted(set(get_fb(func).get_arg_names()))\n"
+                    "        call_kwargs = ', '.join(['%s' % (a,) for a in arg_names if a in params_sofar])\n")
+T('pkgA_twin_level_enumerate_loop_with_counter', ['C01', 'C02', 'C03'],
+  (S, _BCS_LOOP_OLD, _BCS_ENUM % (_ENUM_OK, "', '.join(level_params)")))
+B('pkgA_level_enumerate_loop_update_after_filter', ['C01', 'C02', 'C03'], {'C01': 'R01.f', 'C02': 'R02.b', 'C03': 'R03.b'},
+  (S, _BCS_LOOP_OLD, _BCS_ENUM % (_ENUM_LATE, "', '.join(level_params)")))
+B('pkgA_level_enumerate_loop_positional_call', ['C01', 'C02'], {'C01': 'R01.f', 'C02': 'R02.a'},
+  (S, _BCS_LOOP_OLD, _BCS_ENUM % (_ENUM_POSITIONAL, "', '.join(level_params)")))
+B('pkgA_level_enumerate_loop_sorted_def_params', ['C01', 'C02', 'C03'], {'C01': 'R01.f', 'C02': 'R02.b', 'C03': 'R03.b'},
+  (S, _BCS_LOOP_OLD, _BCS_ENUM % (_ENUM_OK, "', '.join(sorted(level_params))")))
+# range(len()) over the functions, ``+= 1`` counter, the default of params_sofar filled in under a second local
+_BCS_DEFAULT_OLD = ("    if params_sofar is None:\n"
+                    "        params_sofar = set([inner_name])\n"
+                    "\n")
+_BCS_RANGE = ("    names_in_scope = params_sofar\n"
+              "    if params_sofar is None:\n"
+              "        names_in_scope = %s\n"
+              "    cur_level = level\n"
+              "    def_strs = []\n"
+              "    return_strs = []\n"
+              "    for i in range(len(funcs)):\n"
+              "        level_params = params[i]\n"
+              "        names_in_scope.update(level_params)\n"
+              "        arg_items = sorted(dict([(a, a) for a in get_fb(funcs[i]).get_arg_names()]).items())\n"
+              "        call_args_str = ', '.join(['%%s=%%s' %% kv for kv in arg_items if kv[0] in names_in_scope])\n"
+              "        outer_indent = _INDENT * cur_level\n"
+              "        inner_indent = outer_indent + _INDENT\n"
+              "        def_strs.append('%%sdef %%s(%%s):\\n' %% (outer_indent, inner_name, ', '.join(level_params)))\n"
+              "        return_strs.append('%%s__traceback_hide__ = True\\n' %% (inner_indent,)\n"
+              "                           + '%%sreturn funcs[%%s](%%s)\\n' %% (inner_indent, cur_level, call_args_str))\n"
+              "        cur_level += 1\n"
+              "    return ''.join(def_strs + return_strs[::-1])\n")
+T('pkgA_twin_level_range_loop_counter_and_renamed_default', ['C01', 'C02', 'C03'],
+  (S, _BCS_DEFAULT_OLD + _BCS_LOOP_OLD, _BCS_RANGE % "set([inner_name])"))
+B('pkgA_level_range_loop_default_lacks_inner_name', ['C01', 'C02', 'C03'], {'C01': 'R01.f', 'C02': 'R02.b', 'C03': 'R03.b'},
+  (S, _BCS_DEFAULT_OLD + _BCS_LOOP_OLD, _BCS_RANGE % "set()"))
+
+# ------------------------------------------------------------------ core.make_middleware_chain: temporaries re-used from phase to phase
+_MMC_BODY_OLD = ("    req_avail = set(preprovided) - set(['next', 'context'])\n"
+                 '    req_sigs = [(mw.request, mw.provides)\n'
+                 '                for mw in middlewares if mw.request]\n'
+                 '    req_funcs, req_provides = list(zip(*req_sigs)) or ((), ())\n'
+                 '    req_all_provides = set(itertools.chain.from_iterable(req_provides))\n'
+                 '\n'
+                 '    ep_avail = req_avail | req_all_provides\n'
+                 '    ep_sigs = [(mw.endpoint, mw.endpoint_provides)\n'
+                 '               for mw in middlewares if mw.endpoint]\n'
+                 '    ep_funcs, ep_provides = list(zip(*ep_sigs)) or ((), ())\n'
+                 '    ep_chain, ep_args, ep_unres = make_chain(ep_funcs,\n'
+                 '                                             ep_provides,\n'
+                 '                                             endpoint,\n'
+                 '                                             ep_avail,\n'
+                 '                                             _INNER_NAME)\n'
+                 '    if ep_unres:\n'
+                 '        raise NameError("unresolved endpoint middleware arguments: %r"\n'
+                 '                        % list(ep_unres))\n'
+                 '\n'
+                 "    rn_avail = ep_avail | set(['context'])\n"
+                 '    rn_sigs = [(mw.render, mw.render_provides)\n'
+                 '               for mw in middlewares if mw.render]\n'
+                 '    rn_funcs, rn_provides = list(zip(*rn_sigs)) or ((), ())\n'
+                 '    rn_chain, rn_args, rn_unres = make_chain(rn_funcs,\n'
+                 '                                             rn_provides,\n'
+                 '                                             render,\n'
+                 '                                             rn_avail,\n'
+                 '                                             _INNER_NAME)\n'
+                 '    if rn_unres:\n'
+                 '        raise NameError("unresolved render middleware arguments: %r"\n'
+                 '                        % list(rn_unres))\n'
+                 '\n'
+                 "    req_args = (ep_args | rn_args) - set(['context'])\n"
+                 '    req_func = _create_request_inner(ep_chain,\n'
+                 '                                     rn_chain,\n'
+                 '                                     req_args,\n'
+                 '                                     ep_args,\n'
+                 '                                     rn_args)\n'
+                 '    req_chain, req_chain_args, req_unres = make_chain(req_funcs,\n'
+                 '                                                      req_provides,\n'
+                 '                                                      req_func,\n'
+                 '                                                      req_avail,\n'
+                 '                                                      _INNER_NAME)\n'
+                 '    if req_unres:\n'
+                 '        raise NameError("unresolved request middleware arguments: %r"\n'
+                 '                        % list(req_unres))\n'
+                 '    return req_chain\n')
+# %(sel_*)s: how one phase's (functions, provides) lists are collected; %(rn_test)s: the test behind the render make_chain
+_MMC_REUSED = ("    req_avail = set(preprovided) - set(['next', 'context'])\n"
+               "%(sel_req)s"
+               "    req_funcs, req_provides = funcs, provides\n"
+               "    req_all_provides = set(itertools.chain.from_iterable(req_provides))\n"
+               "\n"
+               "    ep_avail = req_avail | req_all_provides\n"
+               "%(sel_ep)s"
+               "    chain, args, unres = make_chain(funcs, provides, endpoint, ep_avail, _INNER_NAME)\n"
+               "    if unres:\n"
+               "        raise NameError('unresolved %%s middleware arguments: %%r' %% ('endpoint', list(unres)))\n"
+               "    ep_chain, ep_args = chain, args\n"
+               "\n"
+               "    rn_avail = ep_avail | set(['context'])\n"
+               "%(sel_rn)s"
+               "    chain, args, unres = make_chain(funcs, provides, render, rn_avail, _INNER_NAME)\n"
+               "%(rn_test)s"
+               "    rn_chain, rn_args = chain, args\n"
+               "\n"
+               "    req_args = (ep_args | rn_args) - set(['context'])\n"
+               "    req_func = _create_request_inner(ep_chain, rn_chain, req_args, ep_args, rn_args)\n"
+               "    chain, args, unres = make_chain(req_funcs, req_provides, req_func, req_avail, _INNER_NAME)\n"
+               "    if unres:\n"
+               "        raise NameError('unresolved %%s middleware arguments: %%r' %% ('request', list(unres)))\n"
+               "    return chain\n")
+_RN_TEST = ("    if unres:\n"
+            "        raise NameError('unresolved %s middleware arguments: %r' % ('render', list(unres)))\n")
+
+
+def _sel_getattr(slot, prov, rebind=True):
+    """(mw.<slot>, getattr(mw, provides_attr)) with provides_attr a local that is re-bound for every phase"""
+    return (("    provides_attr = '%s'\n" % prov if rebind else "") +
+            "    sigs = [(mw.%s, getattr(mw, provides_attr)) for mw in middlewares if mw.%s]\n"
+            "    funcs, provides = list(zip(*sigs)) or ((), ())\n" % (slot, slot))
+
+
+def _sel_attrgetter(slot, prov):
+    return ("    get_func = attrgetter('%s')\n    get_provides = attrgetter('%s')\n"
+            "    sigs = [(get_func(mw), get_provides(mw)) for mw in middlewares if get_func(mw)]\n"
+            "    funcs, provides = list(zip(*sigs)) or ((), ())\n" % (slot, prov))
+
+
+def _sel_loop(slot, prov, skip="not func"):
+    """a loop with a loop-local name for the slot function and an early continue; list locals re-used"""
+    return ("    funcs, provides = [], []\n"
+            "    for mw in middlewares:\n"
+            "        func = mw.%s\n"
+            "        if %s:\n"
+            "            continue\n"
+            "        funcs.append(func)\n"
+            "        provides.append(mw.%s)\n"
+            "    funcs, provides = tuple(funcs), tuple(provides)\n" % (slot, skip, prov))
+
+
+_IMPORT_OLD = "import itertools\n"
+_IMPORT_AG = "import itertools\nfrom operator import attrgetter\n"
+T('pkgA_twin_phase_temporaries_reused_getattr_local', ALL4,
+  (C, _MMC_BODY_OLD, _MMC_REUSED % {'sel_req': _sel_getattr('request', 'provides'), 'sel_ep': _sel_getattr('endpoint', 'endpoint_provides'),
+                                    'sel_rn': _sel_getattr('render', 'render_provides'), 'rn_test': _RN_TEST}))
+B('pkgA_phase_temporaries_reused_stale_provides_attr', ['C01', 'C03'], {'C01': 'R01.d', 'C03': 'R03.d'},
+  (C, _MMC_BODY_OLD, _MMC_REUSED % {'sel_req': _sel_getattr('request', 'provides'), 'sel_ep': _sel_getattr('endpoint', 'endpoint_provides'),
+                                    'sel_rn': _sel_getattr('render', 'render_provides', rebind=False), 'rn_test': _RN_TEST}))
+B('pkgA_phase_temporaries_reused_render_test_missing', ['C01', 'C04'], {'C01': 'R01.b', 'C04': 'R04.e'},
+  (C, _MMC_BODY_OLD, _MMC_REUSED % {'sel_req': _sel_getattr('request', 'provides'), 'sel_ep': _sel_getattr('endpoint', 'endpoint_provides'),
+                                    'sel_rn': _sel_getattr('render', 'render_provides'), 'rn_test': ""}))
+T('pkgA_twin_phase_attrgetter_locals', ALL4,
+  (C, _IMPORT_OLD, _IMPORT_AG),
+  (C, _MMC_BODY_OLD, _MMC_REUSED % {'sel_req': _sel_attrgetter('request', 'provides'), 'sel_ep': _sel_attrgetter('endpoint', 'endpoint_provides'),
+                                    'sel_rn': _sel_attrgetter('render', 'render_provides'), 'rn_test': _RN_TEST}))
+B('pkgA_phase_attrgetter_locals_crossed', ['C01', 'C03'], {'C01': 'R01.d', 'C03': 'R03.d'},
+  (C, _IMPORT_OLD, _IMPORT_AG),
+  (C, _MMC_BODY_OLD, _MMC_REUSED % {'sel_req': _sel_attrgetter('request', 'provides'), 'sel_ep': _sel_attrgetter('endpoint', 'provides'),
+                                    'sel_rn': _sel_attrgetter('render', 'render_provides'), 'rn_test': _RN_TEST}))
+T('pkgA_twin_phase_loop_local_slot_and_continue', ALL4,
+  (C, _MMC_BODY_OLD, _MMC_REUSED % {'sel_req': _sel_loop('request', 'provides'), 'sel_ep': _sel_loop('endpoint', 'endpoint_provides'),
+                                    'sel_rn': _sel_loop('render', 'render_provides'), 'rn_test': _RN_TEST}))
+B('pkgA_phase_loop_continue_inverted', ['C03'], 'R03.d',
+  (C, _MMC_BODY_OLD, _MMC_REUSED % {'sel_req': _sel_loop('request', 'provides'), 'sel_ep': _sel_loop('endpoint', 'endpoint_provides', skip="func"),
+                                    'sel_rn': _sel_loop('render', 'render_provides'), 'rn_test': _RN_TEST}))
+B('pkgA_phase_loop_local_slot_wrong_provides', ['C01', 'C03'], {'C01': 'R01.d', 'C03': 'R03.d'},
+  (C, _MMC_BODY_OLD, _MMC_REUSED % {'sel_req': _sel_loop('request', 'provides'), 'sel_ep': _sel_loop('endpoint', 'endpoint_provides'),
+                                    'sel_rn': _sel_loop('render', 'endpoint_provides'), 'rn_test': _RN_TEST}))
+# one pass over the stack filling a pair of lists per phase
+_MMC_PAIRS = ("    req, ep, rn = ([], []), ([], []), ([], [])\n"
+              "    for mw in middlewares:\n"
+              "        if mw.request:\n"
+              "            req[0].append(mw.request)\n"
+              "            req[1].append(mw.provides)\n"
+              "        if mw.endpoint:\n"
+              "            ep[0].append(mw.endpoint)\n"
+              "            ep[1].append(mw.endpoint_provides)\n"
+              "        %s mw.render:\n"
+              "            rn[0].append(mw.render)\n"
+              "            rn[1].append(%s)\n")
+_MMC_PAIRS_EDITS = (
+    (C, "    req_avail = set(preprovided) - set(['next', 'context'])\n" + _REQ_SIGS_OLD,
+        "%s    req_avail = set(preprovided) - set(['next', 'context'])\n    req_funcs, req_provides = req\n"),
+    (C, _EP_SIGS_OLD, "    ep_funcs, ep_provides = ep\n"),
+    (C, _RN_SIGS_OLD, "    rn_funcs, rn_provides = rn\n"))
+
+
+def _pairs_edits(kw, prov):
+    e = list(_MMC_PAIRS_EDITS)
+    e[0] = (e[0][0], e[0][1], e[0][2] % (_MMC_PAIRS % (kw, prov)))
+    return e
+
+
+T('pkgA_twin_phase_pairs_filled_by_one_loop', ALL4, *_pairs_edits('if', 'mw.render_provides'))
+B('pkgA_phase_pairs_render_only_without_endpoint', ['C03'], 'R03.d', *_pairs_edits('elif', 'mw.render_provides'))
+B('pkgA_phase_pairs_render_wrong_provides', ['C01', 'C03'], {'C01': 'R01.d', 'C03': 'R03.d'}, *_pairs_edits('if', 'mw.provides'))
+
+# ------------------------------------------------------------------ sinter.make_chain: the lists reach the generator as declared
+_MK_PROV_OLD = "    provides = list(provides)\n"
+T('pkgA_twin_make_chain_provides_copied_elementwise', ['C01', 'C02', 'C03'],
+  (S, _MK_PROV_OLD, "    provides = [tuple(p) for p in provides]\n"))
+T('pkgA_twin_make_chain_sorted_outer_args_only', ['C01', 'C02', 'C03'],
+  (S, _MK_CALL_OLD, "    chain = compile_chain(funcs + [final_func],\n                          [tuple(sorted(args))] + provides, inner_name)\n"))
+B('pkgA_make_chain_provides_sorted', ['C01', 'C02', 'C03'], {'C01': 'R01.f', 'C02': 'R02.e', 'C03': 'R03.b'},
+  (S, _MK_PROV_OLD, "    provides = [tuple(sorted(p)) for p in provides]\n"))
+B('pkgA_make_chain_provides_mapped_sorted', ['C01', 'C02', 'C03'], {'C01': 'R01.f', 'C02': 'R02.e', 'C03': 'R03.b'},
+  (S, _MK_PROV_OLD, "    provides = list(map(sorted, provides))\n"))
+B('pkgA_make_chain_provides_deduplicated', ['C02'], 'R02.e',
+  (S, _MK_PROV_OLD, "    provides = [tuple(set(p)) for p in provides]\n"))
+B('pkgA_make_chain_codegen_params_sorted_at_call', ['C01', 'C02', 'C03'], {'C01': 'R01.f', 'C02': 'R02.e', 'C03': 'R03.b'},
+  (S, _MK_CALL_OLD, "    chain = compile_chain(funcs + [final_func],\n                          [args] + [sorted(p) for p in provides], inner_name)\n"))
+
+# ------------------------------------------------------------------ sinter.get_fb: self is dropped for what f is, not for what its instance holds
+_DROP_OLD = "    if drop_self and isinstance(f, types.MethodType):\n        ret.args = ret.args[1:]  # discard \"self\" on methods\n"
+_SPLIT_METHOD = ("def _split_method(f):\n"
+                 "    if isinstance(f, types.MethodType):\n"
+                 "        return f.__self__, f.__func__\n"
+                 "    return None, f\n\n\n"
+                 "def get_fb(f, drop_self=True):\n")
+T('pkgA_twin_self_drop_inspect_ismethod', ['C01'],
+  (S, _DROP_OLD, "    if inspect.ismethod(f) and drop_self:\n        ret.args = ret.args[1:]\n"))
+T('pkgA_twin_self_drop_named_flag', ['C01'],
+  (S, _DROP_OLD, "    is_bound_method = isinstance(f, types.MethodType)\n    if drop_self:\n        if is_bound_method:\n            del ret.args[0]\n"))
+T('pkgA_twin_self_drop_split_helper_is_not_none', ['C01'],
+  (S, "def get_fb(f, drop_self=True):\n", _SPLIT_METHOD),
+  (S, _DROP_OLD, "    im_self, _ = _split_method(f)\n    if drop_self and im_self is not None:\n        ret.args = ret.args[1:]\n"))
+B('pkgA_self_drop_split_helper_truthiness', ['C01'], 'R01.e',
+  (S, "def get_fb(f, drop_self=True):\n", _SPLIT_METHOD),
+  (S, _DROP_OLD, "    im_self, _ = _split_method(f)\n    if drop_self and im_self:\n        ret.args = ret.args[1:]\n"))
+B('pkgA_self_drop_getattr_truthiness', ['C01'], 'R01.e',
+  (S, _DROP_OLD, "    if drop_self and getattr(f, '__self__', None):\n        ret.args = ret.args[1:]\n"))
+B('pkgA_self_drop_method_and_nonempty_instance', ['C01'], 'R01.e',
+  (S, _DROP_OLD, "    if drop_self and isinstance(f, types.MethodType) and len(f.__self__):\n        ret.args = ret.args[1:]\n"))
+B('pkgA_self_drop_early_return_for_falsy_instance', ['C01'], 'R01.e',
+  (S, _DROP_OLD, "    if isinstance(f, types.MethodType) and not f.__self__:\n        return ret\n" + _DROP_OLD))
+B('pkgA_self_drop_for_every_callable', ['C01'], 'R01.e',
+  (S, _DROP_OLD, "    if drop_self:\n        ret.args = ret.args[1:]\n"))
+B('pkgA_self_never_dropped', ['C01'], 'R01.e',
+  (S, _DROP_OLD, ""))
+
+# ------------------------------------------------------------------ route: what binding counted as available is offered per request
+_EXEC_RES_OLD = ("                       '_application': self.bound_apps[-1]}\n"
+                 "        injectables.update(self.resources)\n"
+                 "        injectables.update(kwargs)\n"
+                 "        return inject(self._execute, injectables)\n")
+_REQ_ARGS_OLD = "        self._required_args = self._resolve_required_args()\n"
+T('pkgA_twin_execute_resources_snapshot_attribute', ['C01'],
+  (R, _REQ_ARGS_OLD, _REQ_ARGS_OLD + "        self._resource_injectables = dict(self.resources)\n"),
+  (R, _EXEC_RES_OLD, _EXEC_RES_OLD.replace("injectables.update(self.resources)", "injectables.update(self._resource_injectables)")))
+B('pkgA_execute_resources_filtered_at_bind_time', ['C01'], 'R01.a',
+  (R, _REQ_ARGS_OLD, _REQ_ARGS_OLD + "        self._resource_injectables = {k: v for k, v in self.resources.items() if k in self._required_args}\n"),
+  (R, _EXEC_RES_OLD, _EXEC_RES_OLD.replace("injectables.update(self.resources)", "injectables.update(self._resource_injectables)")))
+B('pkgA_execute_resources_filtered_per_request', ['C01'], 'R01.a',
+  (R, _EXEC_RES_OLD, _EXEC_RES_OLD.replace("injectables.update(self.resources)",
+                                           "injectables.update((k, v) for k, v in self.resources.items() if self.is_required_arg(k))")))
+B('pkgA_execute_route_resources_only', ['C01'], 'R01.a',
+  (R, _EXEC_RES_OLD, _EXEC_RES_OLD.replace("injectables.update(self.resources)", "injectables.update(self.unbound_route.resources)")))
+B('pkgA_execute_call_time_params_filtered', ['C01'], 'R01.a',
+  (R, _EXEC_RES_OLD, _EXEC_RES_OLD.replace("injectables.update(kwargs)",
+                                           "injectables.update({k: v for k, v in kwargs.items() if k in self._required_args})")))
+
+# ------------------------------------------------------------------ route: the chain a binding executes is compiled from its own merged list
+_EXEC_ASSIGN_OLD = "        self._execute = make_middleware_chain(self.middlewares, unbound_route.endpoint, render, provided)\n"
+_MK_CHAIN_CALL = "make_middleware_chain(self.middlewares, unbound_route.endpoint, render, provided)"
+T('pkgA_twin_chain_named_before_stored', ['C01', 'C03'],
+  (R, _EXEC_ASSIGN_OLD, "        compiled = %s\n        self._execute = compiled\n" % _MK_CHAIN_CALL))
+B('pkgA_chain_reused_from_previous_binding', ['C03'], 'R03.d',
+  (R, _EXEC_ASSIGN_OLD,
+      "        self._provided = provided\n"
+      "        if isinstance(route, BoundRoute) and render is route.render and provided == route._provided \\\n"
+      "                and self.middlewares == route.middlewares:\n"
+      "            self._execute = route._execute\n"
+      "        else:\n"
+      "            self._execute = %s\n" % _MK_CHAIN_CALL))
+B('pkgA_chain_previous_binding_or_new', ['C03'], 'R03.d',
+  (R, _EXEC_ASSIGN_OLD, "        self._execute = getattr(route, '_execute', None) or %s\n" % _MK_CHAIN_CALL))
+B('pkgA_chain_memoised_by_stack', ['C03'], 'R03.d',
+  (R, "class BoundRoute(object):\n", "_CHAINS = {}\n\n\nclass BoundRoute(object):\n"),
+  (R, _EXEC_ASSIGN_OLD,
+      "        key = (tuple(self.middlewares), unbound_route.endpoint, render, frozenset(provided))\n"
+      "        if key not in _CHAINS:\n"
+      "            _CHAINS[key] = %s\n"
+      "        self._execute = _CHAINS[key]\n" % _MK_CHAIN_CALL))
+B('pkgA_chain_compiled_from_unmerged_list', ['C03'], 'R03.d',
+  (R, _EXEC_ASSIGN_OLD, "        self._execute = make_middleware_chain(route.middlewares, unbound_route.endpoint, render, provided)\n"))
+
+# ------------------------------------------------------------------ application / route: shapes the front-end dissolves
+T('pkgA_twin_routes_local_rebound_before_loop', ['C01'],
+  (A, "        routes = routes or []\n        self.routes = []\n", "        entries = routes\n        entries = entries or []\n        self.routes = []\n"),
+  (A, "        for entry in routes:\n            self.add(entry)\n", "        for entry in entries:\n            self.add(entry)\n"))
+B('pkgA_routes_local_rebound_to_nothing', ['C01'], 'R01.a',
+  (A, "        routes = routes or []\n        self.routes = []\n", "        entries = routes or []\n        entries = []\n        self.routes = []\n"),
+  (A, "        for entry in routes:\n            self.add(entry)\n", "        for entry in entries:\n            self.add(entry)\n"))
+_EXEC_BOTH_OLD = ("    def execute(self, request, **kwargs):\n"
+                  "        injectables = {'_route': self,\n"
+                  "                       'request': request,\n"
+                  "                       '_application': self.bound_apps[-1]}\n"
+                  "        injectables.update(self.resources)\n"
+                  "        injectables.update(kwargs)\n"
+                  "        return inject(self._execute, injectables)\n")
+_ERR_BOTH_OLD = ("        injectables = {'_route': self,\n"
+                 "                       '_error': _error,\n"
+                 "                       'request': request,\n"
+                 "                       '_application': self.bound_apps[-1]}\n"
+                 "        injectables.update(self.resources)\n"
+                 "        injectables.update(kwargs)\n"
+                 "        return inject(self.render_error, injectables)\n")
+_MK_INJ = ("    def _make_injectables(self, request, overrides, **extra_builtins):\n"
+           "        injectables = {'_route': self}\n"
+           "        injectables.update(extra_builtins)\n"
+           "        injectables['request'] = request\n"
+           "        injectables['_application'] = self.bound_apps[-1]\n"
+           "%s"
+           "        return injectables\n\n"
+           "    def execute(self, request, **kwargs):\n"
+           "        injectables = self._make_injectables(request, kwargs)\n"
+           "        return inject(self._execute, injectables)\n")
+_MK_INJ_OK = "        injectables.update(self.resources)\n        injectables.update(overrides)\n"
+_MK_INJ_BAD = "        injectables.update(overrides)\n        injectables.update(self.resources)\n"
+_ERR_NEW = ("        injectables = self._make_injectables(request, kwargs, _error=_error)\n"
+            "        return inject(self.render_error, injectables)\n")
+T('pkgA_twin_execute_shared_builder_extra_builtins', ['C01', 'C02', 'C04'],
+  (R, _EXEC_BOTH_OLD, _MK_INJ % _MK_INJ_OK), (R, _ERR_BOTH_OLD, _ERR_NEW))
+B('pkgA_execute_shared_builder_resources_over_params', ['C02'], 'R02.c',
+  (R, _EXEC_BOTH_OLD, _MK_INJ % _MK_INJ_BAD), (R, _ERR_BOTH_OLD, _ERR_NEW))
+B('pkgA_execute_builtin_set_after_resources', ['C02'], 'R02.c',
+  (R, _EXEC_BOTH_OLD, _EXEC_BOTH_OLD.replace("                       'request': request,\n", "")
+      .replace("        injectables.update(kwargs)\n", "        injectables['request'] = request\n        injectables.update(kwargs)\n")))
+_DISPATCH_HEAD_OLD = ("        for route in self.routes + [self._null_route]:\n"
+                      "            path_params = route.match_path(url_path)\n"
+                      "            if path_params is None:\n"
+                      "                continue\n"
+                      "            request.path_params = path_params\n"
+                      "            params = dict(base_params, **path_params)\n")
+_ITER_MATCHES = ("    def _iter_path_matches(self, request, url_path, base_params):\n"
+                 "        for route in self.routes + [self._null_route]:\n"
+                 "            path_params = route.match_path(url_path)\n"
+                 "            if path_params is None:\n"
+                 "                continue\n"
+                 "            request.path_params = path_params\n"
+                 "            yield route, %s\n\n"
+                 "    def dispatch(self, request):\n")
+T('pkgA_twin_dispatch_loop_head_generator', ['C02', 'C04'],
+  (A, "    def dispatch(self, request):\n", _ITER_MATCHES % "dict(base_params, **path_params)"),
+  (A, _DISPATCH_HEAD_OLD, "        for route, params in self._iter_path_matches(request, url_path, base_params):\n"))
+B('pkgA_dispatch_loop_head_generator_shared_dict', ['C02'], 'R02.c',
+  (A, "    def dispatch(self, request):\n", _ITER_MATCHES % "base_params"),
+  (A, _DISPATCH_HEAD_OLD, "        for route, params in self._iter_path_matches(request, url_path, base_params):\n            params.update(request.path_params)\n"))
+B('pkgA_dispatch_loop_head_generator_params_under_resources', ['C02'], 'R02.c',
+  (A, "    def dispatch(self, request):\n", _ITER_MATCHES % "dict(path_params, **base_params)"),
+  (A, _DISPATCH_HEAD_OLD, "        for route, params in self._iter_path_matches(request, url_path, base_params):\n"))
+
+
+# =================================================================== seeded round e: state that outlives a call / a binding
+# ------------------------------------------------------------------ sinter.get_fb: nothing left on the callable, memo keyed by the callable
+_FB_RET_OLD = ("    if drop_self and isinstance(f, types.MethodType):\n"
+               "        ret.args = ret.args[1:]  # discard \"self\" on methods\n"
+               "    return ret\n")
+_FB_DROP = ("    if drop_self and isinstance(f, types.MethodType):\n"
+            "        ret.args = ret.args[1:]  # discard \"self\" on methods\n")
+_FB_BUILD_OLD = "    ret = FunctionBuilder.from_func(f)\n"
+_FB_TABLE_OLD = "_INDENT = '    '\n"
+B('pkgA_fb_parked_on_the_function', ['C01', 'C02'], {'C01': 'R01.e', 'C02': 'R02.b'},
+  (S, _FB_RET_OLD, _FB_DROP + "    elif inspect.isfunction(f):\n        try:\n            f._sinter_fb = ret\n"
+                              "        except (AttributeError, TypeError):\n            pass\n    return ret\n"))
+B('pkgA_fb_parked_with_setattr', ['C01', 'C02'], {'C01': 'R01.e', 'C02': 'R02.b'},
+  (S, _FB_RET_OLD, _FB_DROP + "    if inspect.isfunction(f):\n        setattr(f, '_sinter_fb', ret)\n    return ret\n"))
+B('pkgA_fb_parked_in_function_dict', ['C01', 'C02'], {'C01': 'R01.e', 'C02': 'R02.b'},
+  (S, _FB_RET_OLD, _FB_DROP + "    func = f\n    if inspect.isfunction(func):\n        func.__dict__['_sinter_fb'] = ret\n    return ret\n"))
+_FB_MEMO_LOOKUP = ("    cache_key = %s\n"
+                   "    if %s:\n"
+                   "        try:\n"
+                   "            return _FB_CACHE[cache_key]\n"
+                   "        except KeyError:\n"
+                   "            pass\n"
+                   "\n")
+_FB_MEMO_STORE = "    if %s:\n        _FB_CACHE[cache_key] = ret\n    return ret\n"
+
+
+def _fb_memo(key, cond):
+    return ((S, _FB_TABLE_OLD, _FB_TABLE_OLD + "_FB_CACHE = {}\n"),
+            (S, _FB_BUILD_OLD, _FB_MEMO_LOOKUP % (key, cond) + _FB_BUILD_OLD),
+            (S, _FB_RET_OLD, _FB_DROP + _FB_MEMO_STORE % cond))
+
+
+T('pkgA_twin_fb_memo_keyed_by_the_function', ['C01', 'C02'], *_fb_memo("(f, drop_self)", "inspect.isfunction(f)"))
+B('pkgA_fb_memo_keyed_by_code_object', ['C01', 'C02'], {'C01': 'R01.e', 'C02': 'R02.b'},
+  *_fb_memo("(getattr(f, '__code__', None), drop_self)", "cache_key[0] is not None"))
+B('pkgA_fb_memo_keyed_by_id', ['C01', 'C02'], {'C01': 'R01.e', 'C02': 'R02.b'},
+  *_fb_memo("(id(f), drop_self)", "inspect.isfunction(f)"))
+B('pkgA_fb_memo_keyed_by_qualified_name', ['C02'], 'R02.b',
+  *_fb_memo("getattr(f, '__module__', None), getattr(f, '__qualname__', None)", "cache_key[1] is not None"))
+
+# ------------------------------------------------------------------ core.merge_middlewares: a list of its own
+_MERGE_HEAD_OLD = "    old = list(old)\n    merged = list(new)\n"
+T('pkgA_twin_merge_copies_by_slice_and_display', ALL4,
+  (C, _MERGE_HEAD_OLD, "    merged = [*new]\n"))
+B('pkgA_merge_accumulates_in_the_callers_list', ALL4, {'C01': 'R01.a', 'C02': 'R02.b', 'C03': 'R03.d', 'C04': 'R04.a'},
+  (C, _MERGE_HEAD_OLD, "    merged = new\n"))
+B('pkgA_merge_accumulates_in_named_alias', ['C01', 'C02'], {'C01': 'R01.a', 'C02': 'R02.b'},
+  (C, _MERGE_HEAD_OLD, "    outer = new\n    merged = outer\n"))
+B('pkgA_merge_writes_result_back_into_new', ['C02'], 'R02.b',
+  (C, "    return merged\n\n\nclass DummyMiddleware", "    new[:] = merged\n    return merged\n\n\nclass DummyMiddleware"))
+
+# ------------------------------------------------------------------ route / application: the stack is pinned at construction
+_ROUTE_MW_OLD = "        self.middlewares = list(kwargs.pop('middlewares', []))\n"
+_APP_MW_OLD = "        self.middlewares = list(middlewares or [])\n"
+T('pkgA_twin_route_middlewares_pinned_as_tuple', ['C03', 'C04'],
+  (R, _ROUTE_MW_OLD, "        self.middlewares = tuple(kwargs.pop('middlewares', ()))\n"))
+T('pkgA_twin_route_middlewares_pinned_by_display', ['C03'],
+  (R, _ROUTE_MW_OLD, "        given_middlewares = kwargs.pop('middlewares', [])\n        self.middlewares = [*given_middlewares]\n"))
+B('pkgA_route_keeps_the_callers_middleware_list', ['C03'], 'R03.d',
+  (R, _ROUTE_MW_OLD, "        self.middlewares = kwargs.pop('middlewares', [])\n"))
+B('pkgA_route_keeps_the_callers_list_or_default', ['C03'], 'R03.d',
+  (R, _ROUTE_MW_OLD, "        given_middlewares = kwargs.pop('middlewares', None)\n        self.middlewares = given_middlewares or []\n"))
+B('pkgA_application_keeps_the_callers_middleware_list', ['C03'], 'R03.d',
+  (A, _APP_MW_OLD, "        self.middlewares = middlewares or []\n"))
+
+# ------------------------------------------------------------------ core.make_middleware_chain: the unresolved set is computed on every path
+_EP_MAKE_OLD = ("    ep_chain, ep_args, ep_unres = make_chain(ep_funcs,\n"
+                "                                             ep_provides,\n"
+                "                                             endpoint,\n"
+                "                                             ep_avail,\n"
+                "                                             _INNER_NAME)\n")
+_RN_MAKE_OLD = ("    rn_chain, rn_args, rn_unres = make_chain(rn_funcs,\n"
+                "                                             rn_provides,\n"
+                "                                             render,\n"
+                "                                             rn_avail,\n"
+                "                                             _INNER_NAME)\n")
+_PHASE_FAST = ("def _make_phase_chain(funcs, provides, final_func, avail):\n"
+               "    if funcs:\n"
+               "        return make_chain(funcs, provides, final_func, avail, _INNER_NAME)\n"
+               "    required = set(get_arg_names(final_func, only_required=True))\n"
+               "    optional = set(get_arg_names(final_func)) - required\n"
+               "    return final_func, required | (optional & set(avail)), set()\n\n\n"
+               "def make_middleware_chain(")
+T('pkgA_twin_unresolved_set_sorted_before_test', ['C01', 'C04'],
+  (C, _EP_MAKE_OLD, _EP_MAKE_OLD + "    ep_unres = sorted(ep_unres)\n"))
+B('pkgA_phase_fast_path_reports_nothing', ['C01', 'C04'], {'C01': 'R01.b', 'C04': 'R04.e'},
+  (C, "def make_middleware_chain(", _PHASE_FAST),
+  (C, _EP_MAKE_OLD, "    ep_chain, ep_args, ep_unres = _make_phase_chain(ep_funcs, ep_provides, endpoint, ep_avail)\n"),
+  (C, _RN_MAKE_OLD, "    rn_chain, rn_args, rn_unres = _make_phase_chain(rn_funcs, rn_provides, render, rn_avail)\n"))
+B('pkgA_render_fast_path_constant_tuple', ['C01', 'C04'], {'C01': 'R01.b', 'C04': 'R04.e'},
+  (C, _RN_MAKE_OLD, "    if rn_funcs:\n" + _RN_MAKE_OLD.replace("    rn_chain", "        rn_chain").replace("\n     ", "\n         ") +
+      "    else:\n        rn_chain, rn_args, rn_unres = render, set(get_arg_names(render)) & rn_avail, ()\n"))
